@@ -395,12 +395,27 @@ class TraitGen(TreeGen):
     def sq(self, n, trait, depth):
         return getattr(self, "t_" + trait)(n, depth)
 
+    def _decl_comp(self, node, options):
+        """now and then a (true) declaration on a composite itself, not only on its leaves"""
+        if node.get("ch") and node["k"] != "ann" and self.declare and "ann" not in self.avoid and self.integer(1, 6) == 1:
+            return {"k": "ann", "a": self.pick(options), "ch": [node]}
+        return node
+
+    def t_pd(self, n, d):
+        return self._decl_comp(self._t_pd(n, d), ["PSD", "PSD", "SelfAdjoint"])
+
+    def t_herm(self, n, d):
+        return self._decl_comp(self._t_herm(n, d), ["SelfAdjoint"])
+
+    def t_unitary(self, n, d):
+        return self._decl_comp(self._t_unitary(n, d), ["Unitary", "Unitary", "Stiefel"])
+
     # ---------------------------------------------------------------- positive definite
     def pd_matrix(self, n, dt):
         B = self.array((n, n), dt, -2, 2)
         return B @ B.conj().T + self.integer(1, 3) * np.eye(n)
 
-    def t_pd(self, n, d):
+    def _t_pd(self, n, d):
         opts = ["dense", "diag", "smul", "eye"]
         if d > 0:
             opts += ["scale", "sum", "TH", "bd", "gram", "gram"]
@@ -436,7 +451,7 @@ class TraitGen(TreeGen):
         raise AssertionError(k)
 
     # ---------------------------------------------------------------- hermitian (possibly indefinite)
-    def t_herm(self, n, d):
+    def _t_herm(self, n, d):
         opts = ["dense", "diag", "tridiag", "hess", "pd", "smul"]
         if d > 0:
             opts += ["scale", "sum", "TH", "bd", "neg"]
@@ -473,7 +488,7 @@ class TraitGen(TreeGen):
         return {"k": k, "via": self.pick(["fn", "ctor"]), "ch": [self.t_herm(a, d - 1), self.t_herm(n // a, d - 1)]}
 
     # ---------------------------------------------------------------- unitary
-    def t_unitary(self, n, d):
+    def _t_unitary(self, n, d):
         opts = ["perm", "eye", "signed", "hh", "fft"]
         if d > 0:
             opts += ["prod", "TH", "bd", "scale"]
@@ -573,6 +588,43 @@ class TraitGen(TreeGen):
 
     def t_gen(self, n, d):
         return self.op(n, n, d)
+
+    # ---------------------------------------------------------------- annotated structured operators under combinators
+    def annotated(self, n, depth, wrappers=True):
+        """A structured operator (Kronecker / BlockDiag / Tridiagonal / sums ... by construction Hermitian, positive definite
+        or unitary) that carries a TRUE declaration - on its leaves and, possibly, on the composite itself - optionally
+        placed under one combinator (transpose, adjoint, product, sum, Kronecker, block-diagonal, scalar multiple, a slice
+        with equal or permuted index sets)."""
+        trait = self.pick(["herm", "herm", "pd", "unitary"])
+        base = self.sq(n, trait, depth)
+        if base["k"] != "ann" and self.boolean():
+            base = {"k": "ann", "a": {"herm": "SelfAdjoint", "pd": self.pick(["PSD", "SelfAdjoint"]), "unitary": "Unitary"}[trait], "ch": [base]}
+        if not wrappers:
+            return base
+        w = self.pick(["none", "none", "T", "H", "prod", "rprod", "sum", "kron", "bd", "scale", "slice"])
+        if w == "none":
+            return base
+        if w in ("T", "H"):
+            return {"k": w, "ch": [base]}
+        if w == "prod":
+            return {"k": "prod", "via": self.pick(["op", "ctor"]), "ch": [base, self.op(n, self.integer(1, 4), 1)]}
+        if w == "rprod":
+            return {"k": "prod", "via": self.pick(["op", "ctor"]), "ch": [self.op(self.integer(1, 4), n, 1), base]}
+        if w == "sum":
+            return {"k": "sum", "via": "op", "ch": [base, self.annotated(n, 0, wrappers=False) if self.boolean() else self.op(n, n, 1)]}
+        if w == "kron":
+            other = self.annotated(self.integer(1, 3), 0, wrappers=False) if self.boolean() else self.op(self.integer(1, 3), self.integer(1, 3), 1)
+            return {"k": "kron", "via": "fn", "ch": [base, other] if self.boolean() else [other, base]}
+        if w == "bd":
+            other = self.annotated(self.integer(1, 3), 0, wrappers=False) if self.boolean() else self.op(self.integer(1, 3), self.integer(1, 3), 1)
+            return {"k": "bd", "ch": [base, other], "mult": None}
+        if w == "scale":
+            return {"k": "scale", "c": {"t": self.pick(["int", "float"]), "v": self.pick([1, 2, 3])}, "side": self.pick("lr"), "ch": [base]}
+        # slice: equal index sets, or the same positions in a different order on the two axes
+        m = self.integer(1, n)
+        pos = self.draw(st.lists(st.integers(0, n - 1), min_size=m, max_size=m, unique=True))
+        cols = list(self.draw(st.permutations(pos))) if self.boolean() else list(pos)
+        return {"k": "slice", "ch": [base], "s0": {"ix": [int(p) for p in pos]}, "s1": {"ix": [int(p) for p in cols]}}
 
     # ---------------------------------------------------------------- n x k with orthonormal columns
     def stiefel(self, n, k):
